@@ -21,9 +21,12 @@ structure St (α : Type) where
   buf : List α                 -- `buffer` (bus.rs:80), oldest first
   reads : List (Nat × Nat)     -- `frames_read` (bus.rs:82): key ↦ backlog frames already consumed
   nextKey : Nat                -- `next_key` (bus.rs:84)
+  handle : Bool                -- is the `Bus` handle (bus.rs:93-98) still alive? Not part of `SharedNode`:
+                               -- the node is shared through `Rc`, dropping the handle changes nothing in it;
+                               -- it only ends the possibility to `send` (and to read the backlog hook)
 
 /-- `Bus::new` (bus.rs:120-129) with the empty map of `SignalBus::bus` (bus.rs:69) -/
-def init {α : Type} : St α := ⟨0, [], [], 0⟩
+def init {α : Type} : St α := ⟨0, [], [], 0, true⟩
 
 def lookup (k : Nat) : List (Nat × Nat) → Option Nat
   | [] => none
@@ -79,12 +82,22 @@ def dropOutput {α : Type} (s : St α) (key : Nat) : Option (St α) :=
 /-- `Bus::verif_backlog_len` (bus.rs:164-166, verification hook) -/
 def backlogLen {α : Type} (s : St α) : Nat := s.buf.length
 
+/-- `Output::is_exhausted` (bus.rs:293-296): nothing pending and the source reports exhaustion;
+    `srcDone p` = what `signal.is_exhausted()` answers after `p` pulls (observation only, for the driver) -/
+def isExhausted {α : Type} (srcDone : Nat → Bool) (s : St α) (key : Nat) : Option Bool :=
+  (pendingFrames s key).map (fun p => p == 0 && srcDone s.pos)
+
+/-- dropping the `Bus` handle (it has no `Drop` impl; the `Rc` keeps the shared node alive for the
+    outputs): the shared node is untouched -/
+def dropBus {α : Type} (s : St α) : St α := { s with handle := false }
+
 /-! ## Operation sequences (what the correspondence driver executes and the theorems quantify over) -/
 
 inductive Op where
   | send
   | next (key : Nat)
   | drop (key : Nat)
+  | dropBus                    -- the `Bus` handle goes out of scope while outputs may live on
   deriving Repr, DecidableEq
 
 /-- what an operation returns -/
@@ -95,9 +108,10 @@ inductive Ret (α : Type) where
   deriving Repr, DecidableEq
 
 def step {α : Type} (src : Nat → α) (s : St α) : Op → Option (Ret α × St α)
-  | .send => let r := send s; some (.key r.1, r.2)
+  | .send => if s.handle then some (.key (send s).1, (send s).2) else none   -- `send` needs the handle
   | .next k => (nextFrame src s k).map fun r => (.frame r.1, r.2)
   | .drop k => (dropOutput s k).map fun s' => (.unit, s')
+  | .dropBus => if s.handle then some (.unit, dropBus s) else none
 
 /-- run a whole sequence, collecting the return values and every intermediate state -/
 def run {α : Type} (src : Nat → α) (s : St α) : List Op → Option (List (Ret α × St α))
@@ -107,6 +121,49 @@ def run {α : Type} (src : Nat → α) (s : St α) : List Op → Option (List (R
     | none => none
     | some (r, s') =>
       match run src s' ops with
+      | none => none
+      | some rest => some ((r, s') :: rest)
+
+/-! ### Extension beyond C13's literal statement: exhaustion of bus outputs (C05's notion on the bus)
+
+`Signal::until_exhausted` over an `Output` (signal lib.rs:724-729, 2328-2340): while
+`!is_exhausted()` yield `next()`; the iterator owns the output, which is dropped with it. -/
+
+/-- frames yielded by `output.until_exhausted()` followed by the drop of the output; `fuel` bounds
+    the loop (`none` when it does not end within `fuel` steps or the key is not live) -/
+def untilExhausted {α : Type} (src : Nat → α) (srcDone : Nat → Bool) : Nat → St α → Nat → Option (List α × St α)
+  | 0, _, _ => none
+  | fuel + 1, s, key =>
+    match isExhausted srcDone s key with
+    | none => none
+    | some true => (dropOutput s key).map fun s' => ([], s')
+    | some false =>
+      match nextFrame src s key with
+      | none => none
+      | some (f, s') => (untilExhausted src srcDone fuel s' key).map fun r => (f :: r.1, r.2)
+
+/-- the driver's alphabet: the operations of `Op` plus `until_exhausted` on an output -/
+inductive XOp where
+  | op (o : Op)
+  | untilEx (key : Nat)
+  deriving Repr, DecidableEq
+
+inductive XRet (α : Type) where
+  | ret (r : Ret α)
+  | frames (l : List α)
+  deriving Repr
+
+def stepX {α : Type} (src : Nat → α) (srcDone : Nat → Bool) (fuel : Nat) (s : St α) : XOp → Option (XRet α × St α)
+  | .op o => (step src s o).map fun r => (.ret r.1, r.2)
+  | .untilEx k => (untilExhausted src srcDone fuel s k).map fun r => (.frames r.1, r.2)
+
+def runX {α : Type} (src : Nat → α) (srcDone : Nat → Bool) (fuel : Nat) (s : St α) : List XOp → Option (List (XRet α × St α))
+  | [] => some []
+  | op :: ops =>
+    match stepX src srcDone fuel s op with
+    | none => none
+    | some (r, s') =>
+      match runX src srcDone fuel s' ops with
       | none => none
       | some rest => some ((r, s') :: rest)
 
@@ -126,14 +183,17 @@ structure Abs where
   P : Nat                      -- frames pulled from the source so far
   cur : Nat → Option Nat       -- live outputs and their absolute cursors
   nextKey : Nat
+  handle : Bool                -- the `Bus` handle is alive (only `send` needs it)
 
-def Abs.init : Abs := ⟨0, fun _ => none, 0⟩
+def Abs.init : Abs := ⟨0, fun _ => none, 0, true⟩
 
 def Abs.step {α : Type} (src : Nat → α) (a : Abs) : Op → Option (Ret α × Abs)
   | .send =>                   -- a new output starts at the first frame nobody has pulled
-    some (.key a.nextKey,
-          { a with cur := fun k => if k = a.nextKey then some a.P else a.cur k,
-                   nextKey := (a.nextKey + 1) % usizeMod })
+    if a.handle then
+      some (.key a.nextKey,
+            { a with cur := fun k => if k = a.nextKey then some a.P else a.cur k,
+                     nextKey := (a.nextKey + 1) % usizeMod })
+    else none
   | .next k =>                 -- receives `src c`, advances only its own cursor; pulls iff `c = P`
     match a.cur k with
     | none => none
@@ -145,6 +205,8 @@ def Abs.step {α : Type} (src : Nat → α) (a : Abs) : Op → Option (Ret α ×
     match a.cur k with
     | none => none
     | some _ => some (.unit, { a with cur := fun k' => if k' = k then none else a.cur k' })
+  | .dropBus =>                -- no effect on any output
+    if a.handle then some (.unit, { a with handle := false }) else none
 
 def Abs.run {α : Type} (src : Nat → α) (a : Abs) : List Op → Option (List (Ret α × Abs))
   | [] => some []
